@@ -24,7 +24,8 @@ EXPLANATION = (
     "asked for shots raises; (D4) evaluate_estimation_circuits builds each new task from the operator and shot "
     "count of the same task whose circuit it binds with the map zipped to it, with no lookup table or state "
     "surviving between tasks; (D5) exact values: one runner.get_exact_expectation_values(task.circuit, "
-    "task.operator) per task in order (argument slots match the simulator's signature), wrapped one-to-one."
+    "task.operator) per task in order (argument slots match the simulator's signature), wrapped one-to-one. "
+    "(D3) is decided by path conditions on `is_constant` (a value not governed by that test serves both cases and is a violation); (D6) both sampling regimes number qubits alike (rule shared with C04-D1), which 'regardless of shot count' needs."
 )
 RULE_TEXT = "instances = partition appends, unpack slots, single-binding obligations per partition name, element-wise producers, zips, allocation, constant/zero-shot branches, per-task field provenance; distinct by (rule, construct)"
 ASSUMPTIONS = [
